@@ -44,7 +44,7 @@ def showUdpEv : UdpEv → String
   | .data c p => s!"data {c} {tok p}"
   | .raised => "raised"
 
-def step (s : UdpTable) (line : String) : UdpTable × List String :=
+def stepU (s : UdpTable) (line : String) : UdpTable × List String :=
   let bad := (s, ["bad-op"])
   match words line with
   | ["odst", fam, "b", hex] =>
@@ -175,4 +175,27 @@ def step (s : UdpTable) (line : String) : UdpTable × List String :=
   | ["#flush"] => (s, [])
   | _ => bad
 
-def main : IO Unit := runDriver step ([] : UdpTable)
+structure DState where
+  udp : UdpTable := []
+  sess : Sess := {}
+
+def step (st : DState) (line : String) : DState × List String :=
+  match words line with
+  | ["sess", "new"] => ({ st with sess := {} }, ["ok"])
+  | ["sess", "host", f] =>
+    let r := sessStep st.sess (.host (f == "1"))
+    ({ st with sess := r.1 }, ["-"])
+  | ["sess", "query", hex] =>
+    match bytesOfHex hex with
+    | some reply =>
+      let r := sessStep st.sess (.query reply)
+      ({ st with sess := r.1 }, [match r.2 with
+        | some (.line l) => s!"line {tok l}"
+        | some .eof => "eof"
+        | none => "-"])
+    | none => (st, ["bad-op"])
+  | _ =>
+    let r := stepU st.udp line
+    ({ st with udp := r.1 }, r.2)
+
+def main : IO Unit := runDriver step ({} : DState)
